@@ -279,9 +279,12 @@ def check_property(pid, tier, seed):
     samples_out = []
     dropped_all = {}
     try:
+        only = [x for x in os.environ.get("VERIF_ONLY", "").split(",") if x]  # development aid: named obligations only, no evidence written
         for ob in spec["obligations"]:
             tcfg = ob.get(tier) or ob.get("quick")
             if tcfg is None or tcfg.get("skip"):
+                continue
+            if only and ob["id"] not in only:
                 continue
             opts = dict(spec.get("options", {}))
             opts.update(ob.get("options", {}))
@@ -560,7 +563,8 @@ def check_property(pid, tier, seed):
         ev["coverage"]["states"] = 1
     if ev["coverage"]["transitions"] < 1:
         ev["coverage"]["transitions"] = 1
-    json.dump(ev, open(os.path.join(VERIF, "evidence", pid + ".json"), "w"), indent=1)
+    if not os.environ.get("VERIF_ONLY"):
+        json.dump(ev, open(os.path.join(VERIF, "evidence", pid + ".json"), "w"), indent=1)
     print("SUMMARY property=%s tier=%s obligations=%d paths=%d queries=%d solver_s=%.1f validated=%d known=%d new_violations=%d inconclusive=%d wall=%.1fs" %
           (pid, tier, len(obl_reports), tot["paths"], tot["queries"], tot["solver_s"], tot["validated"], len(known_hit), len(violations), len(inconclusive), wall))
     return 1 if violations else 0
